@@ -389,6 +389,19 @@ pub fn loan_oracles(cx: &mut Cx, w: &World, h: &VH, f: &Fee3, amount: u128, scri
     }
 }
 
+impl VaultScn {
+    /// keep only the violations of oracle clauses that belong to the property being checked
+    fn keep_own(&self, cx: &mut Cx) {
+        let prefixes: &[&str] = match self.property.as_str() {
+            "C05" => &["share_price.", "deposit.", "withdraw.", "first_deposit.", "deposit_then_withdraw.", "min_liquidity.", "solvent.", "loan.exact", "loan.one_unit", "loan.counter"],
+            "C07" => &["collect.", "ledger.", "burn."],
+            "C14" => &["share_query."],
+            _ => return,
+        };
+        cx.violations.retain(|v| prefixes.iter().any(|p| v.oracle.starts_with(p)));
+    }
+}
+
 impl Scenario for VaultScn {
     type Action = VAct;
     type Ghost = VG;
@@ -654,6 +667,7 @@ impl Scenario for VaultScn {
         let locked = w.cw20_balance(&h.lp, &h.vault);
         cx.check("min_liquidity.never_decreases", locked >= g.locked, || format!("vault-held shares {} -> {}", g.locked, locked));
         g.locked = locked;
+        self.keep_own(cx);
     }
 
     fn invariants(&self, w: &mut World, h: &VH, g: &VG, cx: &mut Cx) {
@@ -700,6 +714,7 @@ impl Scenario for VaultScn {
                 }
             }
         }
+        self.keep_own(cx);
     }
 }
 
